@@ -15,12 +15,16 @@ def corpus(pid):
     return out
 
 
-def set_stage(run, pid, scs, judge, identity):
-    results = sl.run_cases(run, scs, judge, 2, IMPORTS)
+def set_stage(run, pid, scs, judge, identity, extra_identities=()):
+    """judge yields (agree, monitor, extra monitors...): each extra monitor has its own violation identity."""
+    results = sl.run_cases(run, scs, judge, 2 + len(extra_identities), IMPORTS)
     for sc, obs, r in results:
         if r is None:
             continue
-        agree, mon = r
+        agree, mon = r[0], r[1]
+        for ok, ident in zip(r[2:], extra_identities):
+            if not ok and mon:
+                run.violation(ident, {"scenario": sc, "impl": obs}, True)
         t = [s for s in sc["sets"] if s["name"] == sc["target"]["name"]]
         t = t[0] if t else {}
         run.classes.add(("set", t.get("life"), t.get("deleting"), t.get("fin"), obs["res"],
@@ -33,7 +37,7 @@ def set_stage(run, pid, scs, judge, identity):
     return results
 
 
-def set_check(run, pid, tier, seed, replay, n_quick, n_thorough, judge, identity, rule, phase_judge=None, phase_scs=None):
+def set_check(run, pid, tier, seed, replay, n_quick, n_thorough, judge, identity, rule, phase_judge=None, phase_scs=None, extra_identities=()):
     run.assumptions += [
         "pass-level atomicity with cache reads as fresh as the store",
         "API-server semantics of coq/theories/Api.v / ObjectSet.v (status subresource with resourceVersion conflicts, "
@@ -48,7 +52,7 @@ def set_check(run, pid, tier, seed, replay, n_quick, n_thorough, judge, identity
     if replay:
         sc = json.load(open(replay))["replay"]["scenario"]
         if "target" in sc:
-            res = set_stage(run, pid, [sc], judge, identity)
+            res = set_stage(run, pid, [sc], judge, identity, extra_identities)
             run.cov["evaluations"] = len(res)
         else:
             res = pc.run_cases(run, [sc], phase_judge, 2)
@@ -60,7 +64,7 @@ def set_check(run, pid, tier, seed, replay, n_quick, n_thorough, judge, identity
     # worlds with delegated phases and ObjectSetPhase objects in arbitrary states (the same clauses, read for the
     # phase objects): about a fifth of the local-only worlds
     scs = corpus(pid) + setgen.gen(seed, n, salt=pid) + setgen.gen_delegated(seed, n // 5, salt=pid + "d")
-    res = set_stage(run, pid, scs, judge, identity)
+    res = set_stage(run, pid, scs, judge, identity, extra_identities)
     n = len(res)
     samples = [{"scenario": s, "impl": {k: o[k] for k in ("res", "events")}} for s, o, _ in res[:1]]
     if phase_judge:
